@@ -432,11 +432,7 @@ impl Scenario {
             kind: Kind::parse(v["fleet"].as_str()?)?,
             api: Api::parse(v["api"].as_str()?)?,
             max: v["max_attempts"].as_u64()? as usize,
-            garbage: match v["malformed"].as_str()? {
-                "bad-spec" => Garbage::BadSpec,
-                "bad-length" => Garbage::BadLength,
-                _ => return None,
-            },
+            garbage: Garbage::parse(v["malformed"].as_str()?)?,
             err_code: v["error_code"].as_u64().unwrap_or(0) as u32,
             script,
         })
@@ -693,8 +689,14 @@ fn judge_calls(kind: Kind, max_attempts: usize, label: &str, obs: &ScenObs) -> V
         }
         // O2: retries only after transport-level failures; stops at the first reply
         for w in c.attempts.windows(2) {
-            if w[0].outcome.is_reply() {
-                let cls = if w[0].outcome == Out::AppErr { "application-error" } else { "success" };
+            if w[0].outcome.is_reply() || w[0].realized == Realized::ReplyUndecodable {
+                let cls = if w[0].realized == Realized::ReplyUndecodable {
+                    "undecodable-success"
+                } else if w[0].outcome == Out::AppErr {
+                    "application-error"
+                } else {
+                    "success"
+                };
                 add(
                     format!("C19:attempt-after-reply:{cls}:{f}"),
                     format!(
@@ -707,8 +709,10 @@ fn judge_calls(kind: Kind, max_attempts: usize, label: &str, obs: &ScenObs) -> V
             }
         }
         // O3: reports that reply, or the last transport error
-        if let Some(reply) = c.attempts.iter().find(|a| a.outcome.is_reply()) {
+        if let Some(reply) = c.attempts.iter().find(|a| a.outcome.is_reply() || a.realized == Realized::ReplyUndecodable) {
             let good = match reply.realized {
+                // the node's reply cannot be decoded: the call reports that (any error), never a later attempt's value
+                Realized::ReplyUndecodable => c.res.is_err(),
                 Realized::ReplyOk => obs.expected_replies.get(&reply.serial).is_some_and(|v| c.res == Res::Ok(v.clone())),
                 Realized::ReplyErr { code } => match &c.res {
                     Res::Server { code: got, msg } => {
@@ -1203,6 +1207,13 @@ impl Plan {
                         // the other malformation on the short scripts
                         if len >= 1 && len <= tier.pick(2, 3) && api == Api::Json {
                             blocks.push(Block::Single { kind, api, max, len, garbage: Garbage::BadLength });
+                        }
+                        // a well-framed success reply whose JSON body ends early / is empty (the decoding entry points)
+                        if len >= 1 && len <= tier.pick(2, 3) && api != Api::Message {
+                            blocks.push(Block::Single { kind, api, max, len, garbage: Garbage::TruncatedJson });
+                            if len <= 2 {
+                                blocks.push(Block::Single { kind, api, max, len, garbage: Garbage::EmptyJson });
+                            }
                         }
                     }
                 }
@@ -1842,7 +1853,7 @@ pub fn run(tier: Tier) -> ! {
         "attempts_observed": total.attempts,
         "distinct_nontrivial": total.signatures.len(),
         "exhaustive": true,
-        "rule": "for max_attempts in 1..=M, both fleets: every script over the 7 outcomes of length 0..=max_attempts+2 (one outcome per attempt, in order), then 2 calls against the healthy node; call_json on all of them, call_message on lengths <= L; malformed = bad spec magic everywhere and a length mismatch on the short scripts; broadcast: 4 nodes, every assignment of subsets of 2 tags (4^4) x every requested subset, plus one round with a node down; AXIS A (prefixed scenarios): each prefix of `prefixes` (steps run in order against one node: calls meeting scripted outcomes, connect_all, health_check, reconnect_disconnected, disconnect_all, the node dead meanwhile) x every script of the stated length x {no recovery op} + every recovery op of `recovery_ops` (run between the last scripted outcome and the 2 healthy calls) x every script + prefix x recovery op on the shortest scripts; the clauses on attempts, retries, reported result and not-wedged are judged on every fleet call of the scenario, the maintenance calls only for returning; AXIS B (dynamic scenarios): each initial node set of `initial_node_sets` (warmed up by one broadcast or not) x every sequence of the stated length over the 20 letters remove_node(n0..n3) / add_node(n0..n3 x 4 tag subsets) x a health assignment in {up, dead, cached connection closed while idle}^4 that walks through all 81 as the sequences go by; then for every requested tag subset filter_nodes + broadcast_json + map_reduce_json with all nodes up, one broadcast after which the idle-closing nodes close, the same sweep with the dead nodes dead, one final broadcast with everything up; 4 fake nodes listen throughout, members or not",
+        "rule": "for max_attempts in 1..=M, both fleets: every script over the 7 outcomes of length 0..=max_attempts+2 (one outcome per attempt, in order), then 2 calls against the healthy node; call_json on all of them, call_message on lengths <= L; malformed = bad spec magic everywhere, a length mismatch on the short scripts, and (call_json) a correctly framed success reply whose JSON body ends early or is empty on the short scripts (that one IS a reply: no attempt may follow it and no later value may be reported); broadcast: 4 nodes, every assignment of subsets of 2 tags (4^4) x every requested subset, plus one round with a node down; AXIS A (prefixed scenarios): each prefix of `prefixes` (steps run in order against one node: calls meeting scripted outcomes, connect_all, health_check, reconnect_disconnected, disconnect_all, the node dead meanwhile) x every script of the stated length x {no recovery op} + every recovery op of `recovery_ops` (run between the last scripted outcome and the 2 healthy calls) x every script + prefix x recovery op on the shortest scripts; the clauses on attempts, retries, reported result and not-wedged are judged on every fleet call of the scenario, the maintenance calls only for returning; AXIS B (dynamic scenarios): each initial node set of `initial_node_sets` (warmed up by one broadcast or not) x every sequence of the stated length over the 20 letters remove_node(n0..n3) / add_node(n0..n3 x 4 tag subsets) x a health assignment in {up, dead, cached connection closed while idle}^4 that walks through all 81 as the sequences go by; then for every requested tag subset filter_nodes + broadcast_json + map_reduce_json with all nodes up, one broadcast after which the idle-closing nodes close, the same sweep with the dead nodes dead, one final broadcast with everything up; 4 fake nodes listen throughout, members or not",
         "bound": {"max_attempts": format!("1..={max_hi}"), "script_length": "0..=max_attempts+2", "call_message_script_length": tier.pick("0..=2", "all"), "healthy_calls": HEALTHY_CALLS, "tag_nodes": TAG_NODES, "tags": TAGS.len()},
         "bound_axis_A": {
             "prefixes": maint::catalogue().iter().skip(1).map(|p| p.name).collect::<Vec<_>>(),
